@@ -168,8 +168,8 @@ theorem LogOK_applyOp {s : St} (o : Op) (h : LogOK s) : LogOK (applyOp s o) := b
       · exact LogOK_stepW _ h
   | pStart => exact LogOK_poolAdjust (s := { s with joined := false, started := true, limit := s.pmax }) none none h
   | pStop => exact LogOK_teamQuit (s := { s with joined := true, started := false, limit := 0 }) h
-  | pCall t r =>
-    show LogOK (s.poolCall t r)
+  | pCall t r cb =>
+    show LogOK (s.poolCall t r cb)
     unfold St.poolCall
     split
     · exact LogOK_emit h trivial
